@@ -40,3 +40,29 @@ type RWMutex struct{ Mutex }
 
 func (m *RWMutex) RLock()   { m.Lock() }
 func (m *RWMutex) RUnlock() { m.Unlock() }
+
+// Once has sync.Once semantics; callers that arrive while the first is still inside f wait on a
+// channel (durably blocked in a synctest bubble) instead of on sync.Once's internal mutex.
+type Once struct {
+	mu   Mutex
+	done chan struct{}
+	ran  bool
+}
+
+func (o *Once) Do(f func()) {
+	o.mu.Lock()
+	if o.done == nil {
+		o.done = make(chan struct{})
+	}
+	if o.ran {
+		ch := o.done
+		o.mu.Unlock()
+		<-ch
+		return
+	}
+	o.ran = true
+	ch := o.done
+	o.mu.Unlock()
+	defer close(ch)
+	f()
+}
